@@ -223,7 +223,7 @@ def highestbar(
     high = None
     distance = 0
 
-    for idx, index in enumerate(range(index_, index_ - length, -1)):
+    for idx, index in enumerate(range(index_, max(index_ - length, -1), -1)):
         current = reading_by_index(candles, indicator, index)
         if current is None:
             continue
@@ -252,7 +252,7 @@ def lowestbar(
     low = None
     distance = 0
 
-    for idx, index in enumerate(range(index_, index_ - length, -1)):
+    for idx, index in enumerate(range(index_, max(index_ - length, -1), -1)):
         current = reading_by_index(candles, indicator, index)
         if current is None:
             continue
@@ -276,11 +276,14 @@ def cross(
     if index_ is None:
         return False
 
-    for idx in range(index_, index_ - length, -1):
+    for idx in range(index_, max(index_ - length, 0), -1):
         reading_one = reading_by_index(candles, indicator_two, idx)
         reading_two = reading_by_index(candles, indicator_one, idx)
         prev_one = reading_by_index(candles, indicator_one, idx - 1)
         prev_two = reading_by_index(candles, indicator_two, idx - 1)
+
+        if reading_one is None or reading_two is None or prev_one is None or prev_two is None:
+            continue
 
         if (reading_one < reading_two and prev_one <= prev_two) or (
             reading_one > reading_two and prev_one >= prev_two
@@ -300,7 +303,7 @@ def crossover(
     if index_ is None:
         return False
 
-    for idx in range(index_, index_ - length, -1):
+    for idx in range(index_, max(index_ - length, 0), -1):
         if above(candles, indicator_one, indicator_two, idx) and below(
             candles, indicator_one, indicator_two, idx - 1
         ):
@@ -319,7 +322,7 @@ def crossunder(
     if index_ is None:
         return False
 
-    for idx in range(index_, index_ - length, -1):
+    for idx in range(index_, max(index_ - length, 0), -1):
         if below(candles, indicator_one, indicator_two, idx) and above(
             candles, indicator_one, indicator_two, idx - 1
         ):
